@@ -72,7 +72,8 @@ func (g *gen) lit() string {
 	case 1:
 		return fmt.Sprintf("%q", g.pick("x", "hello", "a b", "%d", ""))
 	case 2:
-		return g.pick("1.5", "0x1f", "'c'", "`raw`", "1e3")
+		// incl. quote characters inside literals of another kind and the comment marker of the patch language
+		return g.pick("1.5", "0x1f", "'c'", "`raw`", "1e3", "\"`\"", "'`'", "\"#\"", "`\"`", "'\"'", "\"'\"", "\"//\"", "`#`")
 	case 3:
 		return g.pick("true", "false", "nil")
 	default:
@@ -1416,6 +1417,21 @@ func (g *gen) fileWith(p *pattern, frags []string, pkg string, imports []string)
 	if g.chance(0.5) {
 		sb.WriteString(g.genDecl() + "\n")
 	}
+	for _, spec := range imports {
+		// code that refers to the import by its local name (the name given, else the last element of the path)
+		if !g.chance(0.4) {
+			continue
+		}
+		name := ""
+		if f := strings.Fields(spec); len(f) == 2 {
+			name = f[0]
+		} else {
+			name = baseOf(strings.Trim(spec, `"`))
+		}
+		if name != "_" && name != "." && name != "" && !strings.HasPrefix(name, "impname") {
+			sb.WriteString("var _ = " + name + "." + g.pick("Value", "New()", "T{}") + "\n\n")
+		}
+	}
 	if len(imports) > 0 && g.chance(0.35) {
 		// a parameter or local variable that shadows the package name of one of the imports
 		spec := imports[g.r.Intn(len(imports))]
@@ -1444,7 +1460,7 @@ type importCase struct {
 	note        string
 }
 
-var importPaths = []string{"fmt", "strings", "os", "example.com/pkg", "net/http", "example.com/lib/other"}
+var importPaths = []string{"fmt", "strings", "os", "example.com/pkg", "net/http", "example.com/lib/other", "example.com/api/core/v1", "example.com/foo/v2", "example.com/x/v0"}
 
 func baseOf(path string) string {
 	if i := strings.LastIndex(path, "/"); i >= 0 {
